@@ -79,6 +79,9 @@ type Explorer struct {
 	Bounds      map[string]int
 	ExpectPanic bool // a target panic escaping the harness is a violation unless expected
 	Deadline    time.Time
+	FallbackName      string
+	FallbackTimeoutMs int
+	FallbackQueries   int
 
 	mu         sync.Mutex
 	frontier   [][]dec
@@ -164,7 +167,37 @@ func (ex *Explorer) enqueue(p []dec) {
 	ex.mu.Unlock()
 }
 
+type workerState struct {
+	ex *Explorer
+	fb *Solver
+	no bool
+}
+
+func (w *workerState) fallback() *Solver {
+	if w.no || w.ex.FallbackName == "" || w.ex.FallbackName == w.ex.SolverName {
+		return nil
+	}
+	if w.fb == nil {
+		s, err := NewSolver(w.ex.FallbackName, w.ex.FallbackTimeoutMs, nil)
+		if err != nil {
+			w.no = true
+			return nil
+		}
+		w.fb = s
+	}
+	return w.fb
+}
+
 func (ex *Explorer) worker() {
+	ws := &workerState{ex: ex}
+	defer func() {
+		if ws.fb != nil {
+			ex.mu.Lock()
+			ex.Solver.add(ws.fb.Stats)
+			ex.mu.Unlock()
+			ws.fb.Close()
+		}
+	}()
 	solver, err := NewSolver(ex.SolverName, ex.TimeoutMs, nil)
 	if err != nil {
 		ex.mu.Lock()
@@ -180,7 +213,7 @@ func (ex *Explorer) worker() {
 		if !ok {
 			break
 		}
-		ex.runPath(solver, prefix)
+		ex.runPath(solver, prefix, ws)
 		ex.done()
 		ex.mu.Lock()
 		over := ex.Stats.Paths >= ex.PathCap || (!ex.Deadline.IsZero() && time.Now().After(ex.Deadline))
@@ -208,6 +241,8 @@ type pathRun struct {
 	pcN      int
 	pcKey    uint64
 	pcKey2   uint64
+	pcTerms  []*Term
+	worker   *workerState
 	nondets  []NondetRec
 	choices  []string
 	steps    int
@@ -224,8 +259,8 @@ type pathRun struct {
 	dead     bool
 }
 
-func (ex *Explorer) runPath(solver *Solver, prefix []dec) {
-	p := &pathRun{ex: ex, solver: solver, prefix: prefix,
+func (ex *Explorer) runPath(solver *Solver, prefix []dec, ws *workerState) {
+	p := &pathRun{ex: ex, solver: solver, prefix: prefix, worker: ws,
 		labels: map[string]bool{}, intr: map[string]int{}, funcs: map[string]int{}, assumes: map[string]int{}}
 	solver.Push()
 	status, msg := ex.Prog.execHarness(ex.Harness, p)
@@ -337,6 +372,9 @@ func (p *pathRun) checkWith(c *Term) Result {
 		return r
 	}
 	r = p.solver.CheckWith(c)
+	if r == Unknown {
+		r = p.fallbackCheck(c)
+	}
 	if r != Unknown {
 		qcMu.Lock()
 		qcache[key] = r
@@ -345,7 +383,30 @@ func (p *pathRun) checkWith(c *Term) Result {
 	return r
 }
 
+// fallbackCheck re-asks a query the primary solver gave up on (z3 is
+// slow on floating-point conversions that cvc5 decides in seconds).
+func (p *pathRun) fallbackCheck(c *Term) Result {
+	fb := p.worker.fallback()
+	if fb == nil {
+		return Unknown
+	}
+	fb.Push()
+	for _, t := range p.pcTerms {
+		fb.Assert(t)
+	}
+	if c != nil {
+		fb.Assert(c)
+	}
+	r := fb.Check()
+	fb.Pop()
+	p.ex.mu.Lock()
+	p.ex.FallbackQueries++
+	p.ex.mu.Unlock()
+	return r
+}
+
 func (p *pathRun) assertPC(t *Term) {
+	p.pcTerms = append(p.pcTerms, t)
 	p.solver.Assert(t)
 	p.pcKey = mix(p.pcKey, uint64(t.ID))
 	p.pcKey2 = mix(p.pcKey2, uint64(t.ID)*2654435761+1)
@@ -534,6 +595,39 @@ func (p *pathRun) checkAssert(label string, c *Term) {
 		p.solver.Assert(tNot(c))
 		r = p.solver.Check()
 	}
+	if r == Unknown {
+		var q *Term
+		if !c.IsConst {
+			q = tNot(c)
+		}
+		if fb := p.worker.fallback(); fb != nil {
+			fb.Push()
+			for _, t := range p.pcTerms {
+				fb.Assert(t)
+			}
+			if q != nil {
+				fb.Assert(q)
+			}
+			switch fb.Check() {
+			case Unsat:
+				r = Unsat
+			case Sat:
+				// counterexample from the fallback solver
+				v := p.buildViolationFrom(fb, label, "assert", "")
+				fb.Pop()
+				if !c.IsConst {
+					p.solver.Pop()
+				}
+				p.ex.addViolation(v)
+				if c.IsConst || p.checkWith(c) != Sat {
+					panic(pathEnd{"violated", label})
+				}
+				p.assertPC(c)
+				return
+			}
+			fb.Pop()
+		}
+	}
 	switch r {
 	case Unsat:
 		p.disch++
@@ -574,11 +668,15 @@ func (p *pathRun) checkAssert(label string, c *Term) {
 // buildViolation reads a model for all nondet variables; the solver
 // must be in a Sat state.
 func (p *pathRun) buildViolation(label, kind, msg string) *Violation {
+	return p.buildViolationFrom(p.solver, label, kind, msg)
+}
+
+func (p *pathRun) buildViolationFrom(solver *Solver, label, kind, msg string) *Violation {
 	var vars []*Term
 	for _, n := range p.nondets {
 		vars = append(vars, n.Vars...)
 	}
-	m, err := p.solver.Model(vars)
+	m, err := solver.Model(vars)
 	v := &Violation{Harness: p.ex.Harness, Label: label, Kind: kind, Msg: msg,
 		Choices: append([]string(nil), p.choices...), Trace: traceString(p.trace, p.kinds)}
 	if err != nil {
